@@ -180,6 +180,9 @@ func unpackWith(opts *options, v reflect.Value, with value) Error {
 		var reified interface{}
 		if reified, err = with.reify(opts); err == nil {
 			err = u.Unpack(reified)
+		} else if e, ok := err.(Error); ok && e.Path() != "" {
+			// names the setting below with that failed
+			return e
 		}
 
 	case BoolUnpacker:
